@@ -473,7 +473,7 @@ func run(id string, cfg config, tier string, seed int64, work string, replayPath
 			hangFiles[fmt.Sprintf("%s-%s-seed%d-shard%d.json", id, tier, seed, i)] = true
 		}
 		if st.Violation != nil {
-			rf := core.ReplayFile{Property: st.Violation.Check, Message: st.Violation.Message, Case: st.Violation.Case}
+			rf := core.ReplayFile{Property: st.Violation.Check, Message: st.Violation.Message, Case: st.Violation.Case, First: st.Violation.First, History: st.Violation.History}
 			data, _ := json.MarshalIndent(&rf, "", " ")
 			_ = os.MkdirAll(filepath.Join(outDir, "replays"), 0o755)
 			p := filepath.Join(outDir, "replays", fmt.Sprintf("%s-%s-seed%d-shard%d.json", id, tier, seed, i))
@@ -540,6 +540,18 @@ func run(id string, cfg config, tier string, seed int64, work string, replayPath
 		}
 		cwg.Wait()
 		for i, p := range replayFiles {
+			if confirmed[i] != "" && !strings.Contains(confirmed[i], "the result depends on earlier calls") {
+				// the case alone reproduces: the replay file does not need what ran before it
+				if data, err := os.ReadFile(p); err == nil {
+					var rf core.ReplayFile
+					if json.Unmarshal(data, &rf) == nil && (len(rf.History) > 0 || len(rf.First) > 0) {
+						rf.History, rf.First = nil, nil
+						if out, err := json.MarshalIndent(rf, "", " "); err == nil {
+							_ = os.WriteFile(p, out, 0o644)
+						}
+					}
+				}
+			}
 			if confirmed[i] != "" {
 				violations++
 				violationLines = append(violationLines, "violation: "+oneLine(confirmed[i]), fmt.Sprintf("VIOLATION property=%s replay=%s", id, p))
